@@ -452,6 +452,7 @@ type treeOpts struct {
 	dup      bool // a widget may appear on two surfaces
 	foreign  bool // the root surface belongs to another widget than the App root
 	huge     bool // sizes and offsets near the uint16 limits
+	popup    bool // a full-size panel below floating surfaces that lie inside the parent (overlaps are the rule)
 	universe int
 }
 
@@ -481,7 +482,15 @@ func genTree(r *rand.Rand, o treeOpts, rootID int) *node {
 		var ks []kid
 		for i := 0; i < n; i++ {
 			var k kid
-			if o.overlap {
+			if o.popup && w > 0 && h > 0 {
+				if i == 0 && r.Intn(4) != 0 {
+					k.N = &node{W: w, H: h}
+				} else {
+					kw, kh := 1+r.Intn(w), 1+r.Intn(h)
+					k.Col, k.Row = r.Intn(w-kw+1), r.Intn(h-kh+1)
+					k.N = &node{W: kw, H: kh}
+				}
+			} else if o.overlap {
 				k.Col = r.Intn(w+3) - 2
 				k.Row = r.Intn(h+2) - 1
 				kw, kh := r.Intn(w+2), r.Intn(h+2)
@@ -536,6 +545,72 @@ func min(a, b int) int {
 	return b
 }
 
+// overlapAt: at some level of the surfaces under the cell at least two siblings contain it
+func overlapAt(n *node, ox, oy, c, r int) bool {
+	cnt := 0
+	for _, k := range n.Kids {
+		x, y := ox+k.Col, oy+k.Row
+		if c >= x && c < x+k.N.W && r >= y && r < y+k.N.H {
+			cnt++
+			if overlapAt(k.N, x, y, c, r) {
+				return true
+			}
+		}
+	}
+	return cnt >= 2
+}
+
+// overlapPoints lists the cells of the root surface (a window of 16x12 of it) that lie under
+// overlapping siblings
+func overlapPoints(t *node) [][2]int {
+	var pts [][2]int
+	for c := 0; c < min(t.W, 16); c++ {
+		for r := 0; r < min(t.H, 12); r++ {
+			if overlapAt(t, 0, 0, c, r) {
+				pts = append(pts, [2]int{c, r})
+			}
+		}
+	}
+	return pts
+}
+
+// resized is the same frame with a root surface of another size (the children are shared)
+func resized(r *rand.Rand, t *node) *node {
+	c := *t
+	for c.W == t.W && c.H == t.H {
+		c.W, c.H = t.W+r.Intn(9)-4, t.H+r.Intn(7)-3
+		if c.W < 1 {
+			c.W = 1
+		}
+		if c.H < 1 {
+			c.H = 1
+		}
+		if c.W > 65535 {
+			c.W = 65535
+		}
+		if c.H > 65535 {
+			c.H = 65535
+		}
+	}
+	return &c
+}
+
+// pickBand picks a cell in the band between the extents of two root surfaces (or just
+// inside / outside one of them)
+func pickBand(r *rand.Rand, a, b *node) (int, int) {
+	lo, hi := min(a.W, b.W), a.W+b.W-min(a.W, b.W)
+	col := lo - 1 + r.Intn(hi-lo+2)
+	lo, hi = min(a.H, b.H), a.H+b.H-min(a.H, b.H)
+	row := lo - 1 + r.Intn(hi-lo+2)
+	switch r.Intn(3) {
+	case 0:
+		row = r.Intn(min(a.H, b.H))
+	case 1:
+		col = r.Intn(min(a.W, b.W))
+	}
+	return col, row
+}
+
 func treeIDs(n *node, acc []int) []int {
 	acc = append(acc, n.ID)
 	for _, k := range n.Kids {
@@ -548,6 +623,7 @@ type cmdOpts struct {
 	universe     int
 	focusInOut   bool // focus commands may be returned from FocusOut handlers
 	quitRate     int  // 1 in quitRate leaf commands is a quit (0 = never)
+	captFocus    int  // percent of the capture-phase calls that answer with a focus command and do not consume
 	focusTargets []int
 }
 
@@ -603,6 +679,20 @@ func scriptGen(o *cmdOpts, quiet int) func(e *env, w int, ev evT, ph int) cmdT {
 	return func(e *env, w int, ev evT, ph int) cmdT {
 		if e.r.Intn(100) < quiet {
 			return cmdT{K: "none"}
+		}
+		if ph == 0 && o.captFocus > 0 && e.r.Intn(100) < o.captFocus {
+			// a capturing ancestor moves the focus and lets the event through
+			f := cmdT{K: "focus", A: e.r.Intn(o.universe)}
+			if len(o.focusTargets) > 0 && e.r.Intn(5) != 0 {
+				f.A = o.focusTargets[e.r.Intn(len(o.focusTargets))]
+			}
+			switch e.r.Intn(4) {
+			case 0:
+				return cmdT{K: "batch", L: []cmdT{{K: "redraw"}, f}}
+			case 1:
+				return cmdT{K: "batch", Slice: true, L: []cmdT{f, {K: "out", A: e.r.Intn(4), B: e.r.Intn(3)}}}
+			}
+			return f
 		}
 		allowFocus := true
 		if ev.K == "focusout" && !o.focusInOut {
@@ -729,6 +819,9 @@ type dplan struct {
 	rerender  int // percent: re-render after a focus change
 	captRate  int
 	startBare bool
+	family    string
+	hotMouse  int // percent of the mouse events aimed at a cell under overlapping siblings (if there is one)
+	resize    int // percent of the steps that are a redraw-path update with a root surface of another size
 }
 
 func pickMouse(r *rand.Rand, t *node) (int, int) {
@@ -791,10 +884,30 @@ func genDirect(r *rand.Rand, p dplan) *dcase {
 		add(inputT{K: "render", T: cur})
 	}
 	lastFocus := root
+	prev := cur // the frame before the last change of the root surface's size
 	for len(c.Inputs) < p.steps {
 		var i inputT
 		x := r.Intn(100)
+		if p.resize > 0 && r.Intn(100) < p.resize {
+			// the frame case of App.Run after the root surface changed its size while the
+			// pointer rests: update(new frame), then (mostly) render + updatePath + lastFrame
+			nt := resized(r, cur)
+			add(inputT{K: "update", T: nt})
+			prev = cur
+			if r.Intn(4) != 0 {
+				cur = nt
+				add(inputT{K: "render", T: cur})
+			}
+			continue
+		}
 		switch {
+		case x < 60 && x >= 28 && p.resize > 0 && r.Intn(2) == 0:
+			col, row := pickBand(r, prev, cur)
+			i = inputT{K: "mouse", A: col, B: row}
+		case x < 60 && x >= 28 && p.hotMouse > 0 && r.Intn(100) < p.hotMouse && len(overlapPoints(cur)) > 0:
+			pts := overlapPoints(cur)
+			pt := pts[r.Intn(len(pts))]
+			i = inputT{K: "mouse", A: pt[0], B: pt[1]}
 		case x < 28:
 			k := r.Intn(5)
 			if r.Intn(4) == 0 {
@@ -877,6 +990,12 @@ func directTags(c *dcase, p dplan) []string {
 	}
 	if p.class != "" {
 		tags = append(tags, "class:"+p.class)
+	}
+	if p.family != "" {
+		tags = append(tags, "family:"+p.family)
+	}
+	if p.tree.popup {
+		tags = append(tags, "tree:popup")
 	}
 	seen := map[string]bool{}
 	for i, in := range c.Inputs {
@@ -1228,6 +1347,11 @@ func main() {
 
 	direct := hx.NewStream("direct", "model.Route", "dcase", "c15_direct_mismatches", "c15_direct_violations")
 	direct.ShardMax = 100
+	// nine tenths random plans; the rest are three directed families (each still random in
+	// trees, scripts and inputs): a capturing ancestor that moves the focus and lets the event
+	// through; pointer events under overlapping siblings (popups over a panel); the redraw
+	// path update(new frame) with a root surface of another size under a resting pointer
+	nFam := nDirect / 20
 	for n := 0; n < nDirect; n++ {
 		p := dplan{
 			tree:      treeOpts{overlap: r.Intn(2) == 0, foreign: r.Intn(8) == 0, huge: r.Intn(12) == 0, dup: r.Intn(15) == 0, universe: 5 + r.Intn(6)},
@@ -1237,6 +1361,26 @@ func main() {
 			rerender:  75,
 			captRate:  20 + r.Intn(50),
 			startBare: r.Intn(10) == 0,
+		}
+		switch {
+		case n >= nDirect-nFam:
+			p.family = "capture-refocus"
+			p.tree.dup, p.tree.huge = false, false
+			p.cmds.captFocus = 30 + r.Intn(60)
+			p.captRate = 50 + r.Intn(50)
+			p.quiet = 50 + r.Intn(45)
+			p.rerender = 50 + r.Intn(51)
+		case n >= nDirect-2*nFam:
+			p.family = "popup"
+			p.tree.popup, p.tree.dup, p.tree.huge = true, false, false
+			p.hotMouse = 50 + r.Intn(50)
+			p.quiet = 60 + r.Intn(38)
+		case n >= nDirect-3*nFam:
+			p.family = "root-resize"
+			p.tree.dup = false
+			p.resize = 15 + r.Intn(30)
+			p.quiet = 60 + r.Intn(38)
+			p.startBare = false
 		}
 		p.cmds.universe = p.tree.universe
 		c := genDirect(r, p)
